@@ -262,6 +262,12 @@ static void __attribute__((noinline)) paint_stack(int byte, size_t n) {
 }
 
 static int paint_byte; static size_t paint_n;
+/* resource oracle: descriptors open in the process beyond the baseline and the live HTTP connection */
+static int count_fds(void) { int i, n = 0; for (i = 0; i < 1024; i++) if (fcntl(i, F_GETFD) != -1) n++; return n; }
+static int fd_baseline = -1;
+static int fd_leak(void) {
+  return count_fds() - fd_baseline - (hc >= 0 ? 1 : 0) - (scr->httpSock != RFB_INVALID_SOCKET ? 1 : 0);
+}
 static unsigned char reqbuf[1 << 18];
 
 int main(void) {
@@ -284,6 +290,7 @@ int main(void) {
   if (lsock4 < 0 || lsock6 < 0) { fprintf(stderr, "cannot listen in %s\n", base); return 2; }
   if (vh_connect_pre(scr, &wit, "RFB 003.008\n", 12) == 0 && vh_handshake_none(scr, &wit, 1) == 0) wit_ok = 1;
   newclients = 0;
+  fd_baseline = count_fds();
 
   while ((line = vh_readline())) {
     int n = vh_split(line, tok, 8);
@@ -406,6 +413,7 @@ int main(void) {
         for (i = 0; i < 3; i++) rfbProcessEvents(scr, 0);
         printf(" new=%s", scr->httpSock == RFB_INVALID_SOCKET ? "closed" : "open");
       } else if (hc >= 0 && (gone || handed)) { close(hc); hc = -1; for (i = 0; i < 3; i++) rfbProcessEvents(scr, 0); }
+      printf(" leak=%d", fd_leak());
       printf(" rfb=%s\n", witness_served() ? "ok" : "dead");
     } else if (!strcmp(tok[0], "slowreq") && n == 2 && scr->httpDir) {
       /* a peer that sends a request and never reads the answer; the server's send buffer is minimal.
@@ -427,6 +435,7 @@ int main(void) {
       noplog = 0;
       close(hc); hc = -1;
       for (i = 0; i < 2; i++) rfbProcessEvents(scr, 0);
+      printf(" leak=%d", fd_leak());
       printf(" rfb=%s\n", witness_served() ? "ok" : "dead");
     } else if (!strcmp(tok[0], "newconn") && n == 1 && scr->httpDir) {
       int old = hc, gone, i;
